@@ -297,7 +297,8 @@ def action_props(world, r, res):
     """Properties whose specified transformation the action is an instance of."""
     do = r["do"]
     if do == "fault":
-        return ["C17"]
+        # the two fault kinds that other properties spell out themselves also count against those
+        return {"shrink_below_support": ["C17", "C10"], "use_destroyed": ["C17", "C05"]}.get(r.get("kind"), ["C17"])
     if do == "op":
         from sim.actions import op_spec
 
@@ -937,10 +938,8 @@ def _check_resize(world, pre, post, r, res, S, cell, out, tol):
 
 
 def _check_fault(world, pre, post, r, res, cell, out, tol):
-    props = ["C17"]
     k = r["kind"]
-    if k == "use_destroyed":
-        props = ["C17", "C05"]
+    props = action_props(world, r, res)
     rejected = res.status == "raised"
     if not rejected:
         if k == "shrink_below_support" and not bool(res.info.get("returned")):
